@@ -203,6 +203,8 @@ structure Failure where
   prevText : Option String := none
   gotText : Option String := none
   src : String := ""
+  props0 : Option String := none    -- pipeline events: property JSON of the first pipeline of the case …
+  propsGot : Option String := none  -- … and of the pipeline that differs
 
 /-! ### Recorded deviations (findings/C13.txt). Each is a decidable predicate on what was observed; a failure
 that no clause explains stays a violation. -/
@@ -287,71 +289,75 @@ def devStrayExprStmt (f : Failure) : Bool :=
   | _ => false
 
 mutual
-/-- an integer literal beyond 2^53 (where float64 no longer holds every integer) somewhere in the tree -/
-def hasBigInt : T → Bool
+/-- the absolute values of the integer literals beyond 2^53 (where float64 no longer holds every integer) in a tree -/
+def bigInts : T → List Nat
   | .node "num" ["i", _, v] _ =>
     match v.toInt? with
-    | some x => x.natAbs > 9007199254740992
-    | none => false
-  | .node _ _ ks => hasBigIntL ks
-def hasBigIntL : List T → Bool
-  | [] => false
-  | k :: ks => hasBigInt k || hasBigIntL ks
+    | some x => if x.natAbs > 9007199254740992 then [x.natAbs] else []
+    | none => []
+  | .node _ _ ks => bigIntsL ks
+def bigIntsL : List T → List Nat
+  | [] => []
+  | k :: ks => bigInts k ++ bigIntsL ks
 end
 
 mutual
-/-- a property call `.field(name, <integer beyond 2^53>)` (the field default of a |default() node) -/
-def hasBigIntFieldDefault : T → Bool
-  | .node "func" [_, name, _] ks => (name == "field" && hasBigIntL ks) || hasBigIntFieldDefaultL ks
-  | .node _ _ ks => hasBigIntFieldDefaultL ks
-def hasBigIntFieldDefaultL : List T → Bool
-  | [] => false
-  | k :: ks => hasBigIntFieldDefault k || hasBigIntFieldDefaultL ks
+/-- the integers beyond 2^53 that are arguments of a property call `.field(name, value)` (field defaults of |default()) -/
+def bigIntFieldDefaults : T → List Nat
+  | .node "func" [_, name, _] ks => (if name == "field" then bigIntsL ks else []) ++ bigIntFieldDefaultsL ks
+  | .node _ _ ks => bigIntFieldDefaultsL ks
+def bigIntFieldDefaultsL : List T → List Nat
+  | [] => []
+  | k :: ks => bigIntFieldDefaults k ++ bigIntFieldDefaultsL ks
 end
+
+/-- float64(n) for a natural number, as a natural number: 53 significant bits, ties to even -/
+def round53 (a : Nat) : Nat :=
+  if a < 9007199254740992 then a else
+  let sh := Nat.log2 a + 1 - 53
+  let q := a >>> sh
+  let rem := a - (q <<< sh)
+  let half := 1 <<< (sh - 1)
+  let q' := if rem > half || (rem == half && q % 2 == 1) then q + 1 else q
+  q' <<< sh
+
+/-- a text cut into maximal runs of digits and of other characters -/
+def splitRuns (cs : List Char) : List (Bool × List Char) :=
+  cs.foldr (fun c acc =>
+    let d := c.isDigit
+    match acc with
+    | (d', chunk) :: rest => if d == d' then (d, c :: chunk) :: rest else (d, [c]) :: acc
+    | [] => [(d, [c])]) []
+
+def natOfRun (cs : List Char) : Nat := cs.foldl (fun a c => a * 10 + (c.toNat - 48)) 0
+
+/-- the two property JSONs are the same text except for digit runs that are one of `ints` in `a` and a decimal that
+rounds to the same float64 in `b`; at least one such difference -/
+def differOnlyByFloatedInts (ints : List Nat) (a b : String) : Bool :=
+  let ra := splitRuns a.toList
+  let rb := splitRuns b.toList
+  ra.length == rb.length &&
+  (ra.zip rb).all (fun (x, y) =>
+    x == y || (x.1 && y.1 && ints.contains (natOfRun x.2) && round53 (natOfRun y.2) == round53 (natOfRun x.2))) &&
+  (ra.zip rb).any (fun (x, y) => x != y)
 
 /-- `default-int-field`: DefaultNode.UnmarshalJSON lets encoding/json decode the field defaults into
 `map[string]interface{}`, so an integer default comes back from pipeline JSON as a float64; beyond 2^53 the
-property JSON of the decoded pipeline shows another number (9223372036854775807 -> 9223372036854776000). -/
+property JSON of the decoded pipeline shows another number (9223372036854775807 -> 9223372036854776000). The clause
+holds exactly when the two property JSONs differ in nothing but such numbers: an integer field default beyond 2^53
+of the script on one side, a decimal that rounds to the same float64 on the other. -/
 def devDefaultIntField (f : Failure) : Bool :=
   f.clause == "pipeline-identical" && f.detail == "pjson:properties" &&
-  match f.orig with
-  | some o => hasBigIntFieldDefault o
-  | none => false
-
-/-- a literal that denotes the zero value of its type: 0, 0.0, -0.0, FALSE, '' -/
-def isZeroLit : T → Bool
-  | .node "num" ["i", _, v] _ => v == "0"
-  | .node "num" ["f", v] _ => v == "0.0" || v == "-0.0"
-  | .node "un" [op] [.node "num" ["i", _, v] _] => op == "-" && v == "0"
-  | .node "un" [op] [.node "num" ["f", v] _] => op == "-" && v == "0.0"
-  | .node "bool" [b] _ => b == "0"
-  | .node "str" [_, l] _ => l == "%"
-  | _ => false
-
-mutual
-/-- a property call `.field(name, <zero>)` / `.tag(name, '')` (the defaults of a |default() node) -/
-def hasZeroDefault : T → Bool
-  | .node "func" [_, name, _] ks =>
-    ((name == "field" || name == "tag") && (match ks with | [_, v] => isZeroLit v | _ => false)) || hasZeroDefaultL ks
-  | .node _ _ ks => hasZeroDefaultL ks
-def hasZeroDefaultL : List T → Bool
-  | [] => false
-  | k :: ks => hasZeroDefault k || hasZeroDefaultL ks
-end
-
-/-- `default-zero-field`: pipeline/tick renders the defaults of a |default() node with `Dot`, which drops zero-valued
-arguments: `.field('x', 0.0)` is rendered `.field('x')`, a script that does not build. -/
-def devDefaultZeroField (f : Failure) : Bool :=
-  f.clause == "pipeline-identical" && f.detail == "ptick-dot:no-pipeline" &&
-  match f.orig with
-  | some o => hasZeroDefault o
-  | none => false
+  match f.orig, f.props0, f.propsGot with
+  | some o, some a, some b =>
+    let ints := bigIntFieldDefaults o
+    !ints.isEmpty && differOnlyByFloatedInts ints a b
+  | _, _, _ => false
 
 def deviationOf (f : Failure) : Option String :=
   if devIntMin64 f then some "int-min64"
   else if devStrayExprStmt f then some "stray-expr-statement"
   else if devDefaultIntField f then some "default-int-field"
-  else if devDefaultZeroField f then some "default-zero-field"
   else none
 
 /-- Runs the spec over a history. Returns the keys of the recorded deviations met (the history is then judged
@@ -365,7 +371,9 @@ def specRun (evs : List Ev) : List String × Option Failure :=
         let f : Failure := { clause := c, detail := d, orig := st.orig,
                              got := (match e with | .tree _ t => t | _ => none),
                              prevText := st.lastText, src := st.src,
-                             gotText := (match e with | .text _ s => some s | _ => none) }
+                             gotText := (match e with | .text _ s => some s | _ => none),
+                             props0 := st.pipe0.map (·.2),
+                             propsGot := (match e with | .pipe _ (some p) => some p.2 | _ => none) }
         match deviationOf f with
         | some k =>
           -- continue relative to what the deviation produced
